@@ -61,6 +61,9 @@ struct Cfg {
     pre: Vec<(Vec<u8>, Vec<u8>)>,
     /// the auto-save directory does not exist yet (the plugin creates it)
     dir_missing: bool,
+    /// directories present in the auto-save directory before the run
+    #[serde(default)]
+    pre_dirs: Vec<Vec<u8>>,
 }
 
 /// what the generator meant to transfer; only the oracle reads this
@@ -92,6 +95,18 @@ struct CaseIn {
     /// far too large for the Coq side, whose shard entry is the empty log
     #[serde(default)]
     probe: Option<(u64, u64)>,
+    /// prior state of the directory the manual save commands write to ("/S" for the model): files (name, content) ...
+    #[serde(default)]
+    spre: Vec<(Vec<u8>, Vec<u8>)>,
+    /// ... directories ...
+    #[serde(default)]
+    sdirs: Vec<Vec<u8>>,
+    /// ... files without write permission (only meaningful when the process is not privileged)
+    #[serde(default)]
+    sreadonly: Vec<Vec<u8>>,
+    /// the save commands issued after the log through PluginState.apply_command: (transfer number, saveAs name below "/S")
+    #[serde(default)]
+    saves: Vec<(u64, Vec<u8>)>,
 }
 
 impl Intent {
@@ -296,6 +311,49 @@ struct RunObs {
     files: Vec<(Vec<u8>, Vec<u8>)>,
     /// problems seen by the harness itself (file system escapes, unparsable items)
     problems: Vec<String>,
+    /// the manual save commands, in order
+    saves: Vec<SaveObs>,
+}
+#[derive(Clone, Debug)]
+struct SaveObs {
+    idx: u64,
+    target: Vec<u8>,
+    /// the file-system oracle handed to the model: can a file be created and written at the target?
+    creatable: bool,
+    ok: bool,
+    before: Option<Vec<u8>>,
+    after: Option<Vec<u8>>,
+    /// some other entry of the directory changed during this command
+    others_changed: bool,
+}
+
+/// does this process ignore file permissions (root)?  Then read-only targets are writable.
+fn perms_ignored() -> bool {
+    use std::os::unix::fs::PermissionsExt;
+    let f = tempfile::NamedTempFile::new().unwrap();
+    let _ = std::fs::set_permissions(f.path(), std::fs::Permissions::from_mode(0o444));
+    std::fs::OpenOptions::new().write(true).open(f.path()).is_ok()
+}
+fn creatable(c: &CaseIn, target: &[u8], perms_ignored: bool) -> bool {
+    if c.sdirs.iter().any(|d| d == target) {
+        return false;
+    }
+    if let Some(p) = target.iter().rposition(|b| *b == b'/') {
+        // the directory part must be an existing directory
+        if !c.sdirs.iter().any(|d| d[..] == target[..p]) {
+            return false;
+        }
+    }
+    if !perms_ignored && c.sreadonly.iter().any(|d| d == target) {
+        return false;
+    }
+    true
+}
+fn list_flat(dir: &Path) -> Vec<(String, Option<Vec<u8>>)> {
+    let mut v = vec![];
+    walk(dir, "", &mut v);
+    v.sort();
+    v
 }
 
 fn sym_dir(cfg: &Cfg) -> Vec<u8> {
@@ -414,6 +472,26 @@ fn run_impl_inner(c: &CaseIn) -> RunObs {
             std::fs::write(save.join(String::from_utf8_lossy(n).to_string()), d).unwrap();
         }
     }
+    if !c.cfg.dir_missing {
+        for d in &c.cfg.pre_dirs {
+            std::fs::create_dir_all(save.join(String::from_utf8_lossy(d).to_string())).unwrap();
+        }
+    }
+    let cmd = root.path().join("cmd");
+    std::fs::create_dir_all(&cmd).unwrap();
+    for d in &c.sdirs {
+        std::fs::create_dir_all(cmd.join(String::from_utf8_lossy(d).to_string())).unwrap();
+    }
+    for (n, d) in &c.spre {
+        std::fs::write(cmd.join(String::from_utf8_lossy(n).to_string()), d).unwrap();
+    }
+    let ignored = perms_ignored();
+    {
+        use std::os::unix::fs::PermissionsExt;
+        for n in &c.sreadonly {
+            let _ = std::fs::set_permissions(cmd.join(String::from_utf8_lossy(n).to_string()), std::fs::Permissions::from_mode(0o444));
+        }
+    }
     let _ = std::fs::create_dir_all(ABS_PROBE);
     let real_dir = c.cfg.dir.as_ref().map(|sfx| format!("{}{}", save.to_str().unwrap(), sfx));
     let mut j = serde_json::Map::new();
@@ -482,16 +560,45 @@ fn run_impl_inner(c: &CaseIn) -> RunObs {
         }
     }
     let _ = std::fs::remove_file(&tmp_out);
+    // the manual save commands on the prepared directory, through the public entry point PluginState.apply_command
+    let mut saves = vec![];
+    for (idx, target) in &c.saves {
+        let tp = cmd.join(String::from_utf8_lossy(target).to_string());
+        let before_all = list_flat(&cmd);
+        let before = if tp.is_file() { std::fs::read(&tp).ok() } else { None };
+        let params = json!({"saveAs": tp.to_str().unwrap()});
+        let ctx = json!({"save": {"idx": idx}});
+        let ok = match state.apply_command {
+            Some(f) => f(&state.internal_data, "save", params.as_object(), ctx.as_object()),
+            None => false,
+        };
+        let after = if tp.is_file() { std::fs::read(&tp).ok() } else { None };
+        let after_all = list_flat(&cmd);
+        let tname = String::from_utf8_lossy(target).to_string();
+        let strip = |l: &Vec<(String, Option<Vec<u8>>)>| l.iter().filter(|e| e.0 != tname).cloned().collect::<Vec<_>>();
+        saves.push(SaveObs { idx: *idx, target: target.clone(), creatable: creatable(c, target, ignored), ok, before, after, others_changed: strip(&before_all) != strip(&after_all) });
+    }
     // file system after the run
     let mut all = vec![];
     walk(root.path(), "", &mut all);
     let mut files = vec![];
+    let is_predir = |n: &str| !c.cfg.dir_missing && c.cfg.pre_dirs.iter().any(|d| String::from_utf8_lossy(d) == n);
+    let is_sdir = |n: &str| c.sdirs.iter().any(|d| String::from_utf8_lossy(d) == n);
     for (rel, content) in all {
-        if rel == "save" && content.is_none() {
+        if (rel == "save" || rel == "cmd") && content.is_none() {
+            continue;
+        }
+        if let Some(n) = rel.strip_prefix("cmd/") {
+            match content {
+                Some(d) if !n.contains('/') => files.push((path_join(b"/S", n.as_bytes()), d)),
+                None if is_sdir(n) => {}
+                _ => problems.push(format!("unexpected entry in the save command directory: {:?}", rel)),
+            }
             continue;
         }
         match (rel.strip_prefix("save/"), content) {
             (Some(n), Some(d)) if !n.contains('/') => files.push((path_join(&sym_dir(&c.cfg), n.as_bytes()), d)),
+            (Some(n), None) if is_predir(n) => {}
             (_, _) => problems.push(format!("file system entry outside the auto-save directory: {:?}", rel)),
         }
     }
@@ -502,7 +609,7 @@ fn run_impl_inner(c: &CaseIn) -> RunObs {
         problems.push(format!("written outside the configured directory: {}/{}", ABS_PROBE, probe[0].0));
         let _ = std::fs::remove_dir_all(ABS_PROBE);
     }
-    RunObs { rets, generation, items, files, problems }
+    RunObs { rets, generation, items, files, problems, saves }
 }
 
 /// file contents in the observation (mirrors Exec/C17.v o_blob): literal up to 48 bytes, else length, checksum, head, tail
@@ -544,6 +651,7 @@ fn obs_tree(r: &Result<RunObs, String>) -> O {
                 })
                 .collect()),
             O::T(o.files.iter().map(|(p, d)| O::T(vec![O::bytes(p), blob(d)])).collect()),
+            O::T(o.saves.iter().map(|s| O::T(vec![O::b(s.ok), O::opt(s.after.as_ref().map(|d| blob(d)))])).collect()),
         ]),
     }
 }
@@ -600,6 +708,9 @@ fn oracle(c: &CaseIn, r: &Result<RunObs, String>) -> Verdict {
     }
     // every new file belongs to a transfer reported complete that names it, and holds that transfer's file
     for f in &o.files {
+        if f.0.starts_with(b"/S/") {
+            continue; // written by the save command, checked below
+        }
         let is_pre = !c.cfg.dir_missing && c.cfg.pre.iter().any(|(n, _)| path_join(&sd, n) == f.0);
         if is_pre {
             continue;
@@ -659,6 +770,48 @@ fn oracle(c: &CaseIn, r: &Result<RunObs, String>) -> Verdict {
             _ => {}
         }
     }
+    // the save command: after every save reported successful the target holds exactly the transfer's content,
+    // whatever it held before; a refused save leaves the target untouched; nothing else in the directory changes
+    for (k, sv) in o.saves.iter().enumerate() {
+        let name = String::from_utf8_lossy(&sv.target).to_string();
+        if sv.others_changed {
+            return fail("save_confined", format!("save #{} to {:?} changed another entry of the directory", k, name));
+        }
+        let item = o.items.get(sv.idx as usize);
+        let saveable = item.map(|i| i.bytes.is_some()).unwrap_or(false);
+        if sv.ok {
+            let it = match item {
+                Some(i) if i.state == 2 => i,
+                _ => return fail("damaged_saved", format!("save #{} succeeded for transfer {} which is not complete", k, sv.idx)),
+            };
+            // the original content: the generator's intent if there is one, else what a save to a fresh file delivered
+            let want = c.intents.iter().find(|t| t.ecu == it.ecu && t.lc as u64 == it.lc && t.serial == it.serial).map(|t| t.content()).or(it.bytes.clone());
+            match (&sv.after, want) {
+                (Some(a), Some(w)) if *a == w => {}
+                (Some(a), Some(w)) => {
+                    return fail("save_exact", format!("save #{} of transfer {} to {:?} reported success but the file holds {} bytes that differ from the transfer's {} bytes (target before: {})", k, sv.idx, name, a.len(), w.len(), sv.before.as_ref().map(|b| format!("{} bytes", b.len())).unwrap_or("absent".into())))
+                }
+                (None, _) => return fail("save_exact", format!("save #{} to {:?} reported success but there is no file", k, name)),
+                (_, None) => return fail("save_exact", format!("save #{}: success for a transfer without data", k)),
+            }
+            if !sv.creatable {
+                return fail("harness_parse", format!("save #{} to {:?} succeeded although the target cannot be created", k, name));
+            }
+        } else {
+            if sv.before != sv.after {
+                return fail("save_failed_untouched", format!("save #{} to {:?} reported failure but the target changed", k, name));
+            }
+            if saveable && sv.creatable {
+                return fail("save_possible", format!("save #{} of the complete transfer {} to the creatable target {:?} failed", k, sv.idx, name));
+            }
+        }
+    }
+    for d in &c.sdirs {
+        let p = path_join(b"/S", d);
+        if o.files.iter().any(|f| f.0 == p) {
+            return fail("save_failed_untouched", format!("directory {:?} replaced by a file", String::from_utf8_lossy(d)));
+        }
+    }
     // bytes are only handed out for complete transfers
     for i in &o.items {
         if i.bytes.is_some() && i.state != 2 {
@@ -704,7 +857,15 @@ fn coq_case(c: &CaseIn, glob_tbl: &Option<Vec<Vec<u8>>>) -> String {
             format!("({}, {}, {}, {})", m.ecu, m.lc, ext, coq_body(&m.body))
         })
         .collect();
-    format!("({}, {})", ccfg, clist(&msgs))
+    let ignored = perms_ignored();
+    let mut dirs: Vec<String> = vec![];
+    if !cfg.dir_missing {
+        dirs.extend(cfg.pre_dirs.iter().map(|d| cbytes(&path_join(&sym_dir(cfg), d))));
+    }
+    dirs.extend(c.sdirs.iter().map(|d| cbytes(&path_join(b"/S", d))));
+    let extra: Vec<String> = c.spre.iter().map(|(n, d)| format!("({}, {})", cbytes(&path_join(b"/S", n)), cbytes(d))).collect();
+    let ops: Vec<String> = c.saves.iter().map(|(i, t)| format!("({}, {}, {})", i, cbytes(&path_join(b"/S", t)), cbool(creatable(c, t, ignored)))).collect();
+    format!("({}, {}, ({}, {}, {}))", ccfg, clist(&msgs), clist(&dirs), clist(&extra), clist(&ops))
 }
 
 /// names the plugin may ask the glob about: the announced names as the model decodes them, and "<missing_flst>"
@@ -778,6 +939,25 @@ fn record(sink: &mut Sink, family: &str, c0: CaseIn) {
     if c.cfg.glob.is_some() {
         tags.push("autosave_cfg".into());
     }
+    if let Ok(o) = &r {
+        for sv in &o.saves {
+            let prior = match (&sv.before, sv.after.as_ref().map(|a| a.len())) {
+                _ if c.sdirs.iter().any(|d| *d == sv.target) => "dir",
+                _ if !sv.creatable => "uncreatable",
+                (None, _) => "absent",
+                (Some(b), _) if b.is_empty() => "empty",
+                (Some(b), Some(a)) if sv.ok && b.len() < a => "shorter",
+                (Some(b), Some(a)) if sv.ok && b.len() == a => "samelen",
+                (Some(b), Some(a)) if sv.ok && b.len() > a => "longer",
+                _ => "existing",
+            };
+            tags.push(format!("save_prior_{}", prior));
+            tags.push(if sv.ok { "save_ok".to_string() } else { "save_refused".to_string() });
+        }
+    }
+    if !c.cfg.pre_dirs.is_empty() {
+        tags.push("autosave_target_is_dir".into());
+    }
     if !c.cfg.pre.is_empty() && !c.cfg.dir_missing {
         tags.push("preexisting_files".into());
     }
@@ -790,7 +970,7 @@ fn record(sink: &mut Sink, family: &str, c0: CaseIn) {
 
 // ------------------------------------------------------------------ generators
 fn std_cfg() -> Cfg {
-    Cfg { enabled: true, allow_save: true, keep_flda: false, apid: Some(c4("APID")), ctid: Some(c4("CTID")), dir: None, glob: None, pre: vec![], dir_missing: false }
+    Cfg { enabled: true, allow_save: true, keep_flda: false, apid: Some(c4("APID")), ctid: Some(c4("CTID")), dir: None, glob: None, pre: vec![], dir_missing: false, pre_dirs: vec![] }
 }
 fn autosave_cfg(allow_save: bool, glob: &str, sfx: &str) -> Cfg {
     Cfg { allow_save, dir: Some(sfx.into()), glob: Some(glob.into()), ..std_cfg() }
@@ -1087,7 +1267,7 @@ fn gen_scenario(rng: &mut Rng, big: bool) -> CaseIn {
     }
     let noise = rng.below(4);
     let msgs = if rng.chance(1, 5) { seqs.concat() } else { interleave(rng, seqs, &plans, noise, cfg.apid.is_some()) };
-    CaseIn { cfg, msgs, intents, isolate: false, probe: None }
+    CaseIn { cfg, msgs, intents, isolate: false, probe: None, spre: vec![], sdirs: vec![], sreadonly: vec![], saves: vec![] }
 }
 
 /// malformed / adversarial streams: no intents, the oracle only checks crash freedom and the file system rules
@@ -1150,7 +1330,7 @@ fn gen_malformed(rng: &mut Rng) -> CaseIn {
         let ext = if rng.chance(1, 12) { None } else { Some((c4(*rng.pick(&["APID", "APID", "APIX"])), c4("CTID"), vmm, noar)) };
         msgs.push(Msg { ecu, lc, ext, body });
     }
-    CaseIn { cfg, msgs, intents: vec![], isolate: false, probe: None }
+    CaseIn { cfg, msgs, intents: vec![], isolate: false, probe: None, spre: vec![], sdirs: vec![], sreadonly: vec![], saves: vec![] }
 }
 
 /// announcements with huge sizes (pre-allocation from announced sizes); run isolated
@@ -1176,7 +1356,7 @@ fn huge_cases() -> Vec<CaseIn> {
                 mk(Body::Flda { be: false, sty: 3, sty2: 3, serial: 5, pnr: 1, raw_ti: TI_RAWD, payload: vec![1, 2] }, 5),
                 mk(Body::Flfi { be: false, sty: 3, serial: 5 }, 3),
             ];
-            v.push(CaseIn { cfg, msgs, intents: vec![], isolate: true, probe: None });
+            v.push(CaseIn { cfg, msgs, intents: vec![], isolate: true, probe: None, spre: vec![], sdirs: vec![], sreadonly: vec![], saves: vec![] });
         }
     }
     v
@@ -1186,7 +1366,7 @@ fn corpus(sink: &mut Sink) {
     // DESIGN Appendix A, C17-1: 3 packages of 2 bytes, FLDA 1,2,2,3
     let p = simple_plan(17, b"test_file.bin", vec![1, 2, 3, 4, 5, 6], 2);
     for f in [Fault::Dup(2, 2), Fault::None, Fault::Dup(1, 1), Fault::Dup(1, 3), Fault::Dup(3, 3)] {
-        record(sink, "corpus", CaseIn { cfg: std_cfg(), msgs: transfer_msgs(&p, &f), intents: vec![intent(&p, &f)], isolate: false, probe: None });
+        record(sink, "corpus", CaseIn { cfg: std_cfg(), msgs: transfer_msgs(&p, &f), intents: vec![intent(&p, &f)], isolate: false, probe: None, spre: vec![], sdirs: vec![], sreadonly: vec![], saves: vec![] });
     }
     // duplicate in a transfer whose announcement was lost (all packages of equal size)
     {
@@ -1194,7 +1374,7 @@ fn corpus(sink: &mut Sink) {
         m.remove(0);
         let mut i = intent(&p, &Fault::Dup(2, 2));
         i.fault = "drop_flst".into();
-        record(sink, "corpus", CaseIn { cfg: std_cfg(), msgs: m, intents: vec![i], isolate: false, probe: None });
+        record(sink, "corpus", CaseIn { cfg: std_cfg(), msgs: m, intents: vec![i], isolate: false, probe: None, spre: vec![], sdirs: vec![], sreadonly: vec![], saves: vec![] });
     }
     // the repository's unit tests: recovered transfer (FLDA with a string payload + FLFI), regular transfer, auto save
     {
@@ -1206,17 +1386,17 @@ fn corpus(sink: &mut Sink) {
             let mut cfg = std_cfg();
             cfg.allow_save = allow;
             cfg.keep_flda = !allow;
-            record(sink, "corpus", CaseIn { cfg, msgs: vec![m1.clone(), m2.clone()], intents: vec![], isolate: false, probe: None });
+            record(sink, "corpus", CaseIn { cfg, msgs: vec![m1.clone(), m2.clone()], intents: vec![], isolate: false, probe: None, spre: vec![], sdirs: vec![], sreadonly: vec![], saves: vec![] });
         }
         let p1 = Plan { bs: 512, ..simple_plan(17, b"test_file.bin", b"data".to_vec(), 512) };
-        record(sink, "corpus", CaseIn { cfg: std_cfg(), msgs: transfer_msgs(&p1, &Fault::None), intents: vec![intent(&p1, &Fault::None)], isolate: false, probe: None });
+        record(sink, "corpus", CaseIn { cfg: std_cfg(), msgs: transfer_msgs(&p1, &Fault::None), intents: vec![intent(&p1, &Fault::None)], isolate: false, probe: None, spre: vec![], sdirs: vec![], sreadonly: vec![], saves: vec![] });
         let p2 = Plan { name: b"/tmp/test_file.bin".to_vec(), ..p1.clone() };
         let mut cfg = autosave_cfg(false, "**/test_*.*", "");
         cfg.keep_flda = true;
-        record(sink, "corpus", CaseIn { cfg: cfg.clone(), msgs: transfer_msgs(&p2, &Fault::None), intents: vec![intent(&p2, &Fault::None)], isolate: false, probe: None });
+        record(sink, "corpus", CaseIn { cfg: cfg.clone(), msgs: transfer_msgs(&p2, &Fault::None), intents: vec![intent(&p2, &Fault::None)], isolate: false, probe: None, spre: vec![], sdirs: vec![], sreadonly: vec![], saves: vec![] });
         // the same with the target already present: nothing may be written
         cfg.pre = vec![(b"test_file.bin".to_vec(), b"old".to_vec())];
-        record(sink, "corpus", CaseIn { cfg, msgs: transfer_msgs(&p2, &Fault::None), intents: vec![intent(&p2, &Fault::None)], isolate: false, probe: None });
+        record(sink, "corpus", CaseIn { cfg, msgs: transfer_msgs(&p2, &Fault::None), intents: vec![intent(&p2, &Fault::None)], isolate: false, probe: None, spre: vec![], sdirs: vec![], sreadonly: vec![], saves: vec![] });
     }
     // every name of the table through auto save (allowSave on and off), two transfers so that equal base names collide
     for (k, name) in NAMES.iter().enumerate() {
@@ -1232,7 +1412,7 @@ fn corpus(sink: &mut Sink) {
             if k % 5 == 2 {
                 cfg.dir_missing = true;
             }
-            record(sink, "names", CaseIn { cfg, msgs, intents: vec![intent(&pa, &Fault::None), intent(&pb, &Fault::None)], isolate: false, probe: None });
+            record(sink, "names", CaseIn { cfg, msgs, intents: vec![intent(&pa, &Fault::None), intent(&pb, &Fault::None)], isolate: false, probe: None, spre: vec![], sdirs: vec![], sreadonly: vec![], saves: vec![] });
         }
     }
     // re-announcement of a running transfer's key, announcement after a recovered (MissingStart) transfer
@@ -1240,29 +1420,29 @@ fn corpus(sink: &mut Sink) {
         let p = simple_plan(9, b"re.bin", vec![1, 2, 3, 4], 2);
         let t = transfer_msgs(&p, &Fault::None);
         let msgs = vec![t[0].clone(), t[1].clone(), t[0].clone(), t[1].clone(), t[2].clone(), t[3].clone()];
-        record(sink, "corpus", CaseIn { cfg: std_cfg(), msgs, intents: vec![], isolate: false, probe: None });
+        record(sink, "corpus", CaseIn { cfg: std_cfg(), msgs, intents: vec![], isolate: false, probe: None, spre: vec![], sdirs: vec![], sreadonly: vec![], saves: vec![] });
         let msgs = vec![t[1].clone(), t[0].clone(), t[1].clone(), t[2].clone(), t[3].clone(), t[3].clone()];
-        record(sink, "corpus", CaseIn { cfg: std_cfg(), msgs, intents: vec![], isolate: false, probe: None });
+        record(sink, "corpus", CaseIn { cfg: std_cfg(), msgs, intents: vec![], isolate: false, probe: None, spre: vec![], sdirs: vec![], sreadonly: vec![], saves: vec![] });
         // end marker twice, packages after completion
         let msgs = vec![t[0].clone(), t[1].clone(), t[2].clone(), t[3].clone(), t[3].clone(), t[2].clone(), t[1].clone()];
-        record(sink, "corpus", CaseIn { cfg: std_cfg(), msgs, intents: vec![intent(&p, &Fault::None)], isolate: false, probe: None });
+        record(sink, "corpus", CaseIn { cfg: std_cfg(), msgs, intents: vec![intent(&p, &Fault::None)], isolate: false, probe: None, spre: vec![], sdirs: vec![], sreadonly: vec![], saves: vec![] });
         // announced size 0
         let mut t0 = t.clone();
         if let Body::Flst { size, .. } = &mut t0[0].body {
             *size = 0;
         }
-        record(sink, "corpus", CaseIn { cfg: std_cfg(), msgs: t0, intents: vec![], isolate: false, probe: None });
+        record(sink, "corpus", CaseIn { cfg: std_cfg(), msgs: t0, intents: vec![], isolate: false, probe: None, spre: vec![], sdirs: vec![], sreadonly: vec![], saves: vec![] });
         // disabled plugin
         let mut cfg = std_cfg();
         cfg.enabled = false;
-        record(sink, "corpus", CaseIn { cfg, msgs: t.clone(), intents: vec![], isolate: false, probe: None });
+        record(sink, "corpus", CaseIn { cfg, msgs: t.clone(), intents: vec![], isolate: false, probe: None, spre: vec![], sdirs: vec![], sreadonly: vec![], saves: vec![] });
         // filters that do not match / message without extended header
         let mut cfg = std_cfg();
         cfg.apid = Some(c4("APIX"));
-        record(sink, "corpus", CaseIn { cfg, msgs: t.clone(), intents: vec![], isolate: false, probe: None });
+        record(sink, "corpus", CaseIn { cfg, msgs: t.clone(), intents: vec![], isolate: false, probe: None, spre: vec![], sdirs: vec![], sreadonly: vec![], saves: vec![] });
         let mut cfg = std_cfg();
         cfg.ctid = Some(c4("CTIX"));
-        record(sink, "corpus", CaseIn { cfg, msgs: t.clone(), intents: vec![], isolate: false, probe: None });
+        record(sink, "corpus", CaseIn { cfg, msgs: t.clone(), intents: vec![], isolate: false, probe: None, spre: vec![], sdirs: vec![], sreadonly: vec![], saves: vec![] });
     }
     for c in huge_cases() {
         record(sink, "huge", c);
@@ -1284,7 +1464,7 @@ fn sweep(sink: &mut Sink, rng: &mut Rng, max_n: usize) {
                     let p = Plan { be: serial % 5 == 0, ..simple_plan(serial, b"sweep.bin", file_bytes(rng, len as usize), bs) };
                     let mut cfg = std_cfg();
                     cfg.keep_flda = serial % 3 == 0;
-                    record(sink, "sweep", CaseIn { cfg, msgs: transfer_msgs(&p, &f), intents: vec![intent(&p, &f)], isolate: false, probe: None });
+                    record(sink, "sweep", CaseIn { cfg, msgs: transfer_msgs(&p, &f), intents: vec![intent(&p, &f)], isolate: false, probe: None, spre: vec![], sdirs: vec![], sreadonly: vec![], saves: vec![] });
                 }
             }
         }
@@ -1313,7 +1493,7 @@ fn all_interleavings(sink: &mut Sink) {
                 j += 1;
             }
         }
-        record(sink, "interleavings", CaseIn { cfg: std_cfg(), msgs, intents: vec![intent(&pa, &Fault::None), intent(&pb, &Fault::None)], isolate: false, probe: None });
+        record(sink, "interleavings", CaseIn { cfg: std_cfg(), msgs, intents: vec![intent(&pa, &Fault::None), intent(&pb, &Fault::None)], isolate: false, probe: None, spre: vec![], sdirs: vec![], sreadonly: vec![], saves: vec![] });
     }
 }
 
@@ -1360,7 +1540,7 @@ fn sized_cases(sink: &mut Sink, rng: &mut Rng, tier: &str) {
             plans.push(q);
         }
         let msgs = if seqs.len() == 1 && k % 2 == 0 { seqs.concat() } else { interleave(rng, seqs, &plans, k % 3, cfg.apid.is_some()) };
-        record(sink, "sized", CaseIn { cfg, msgs, intents, isolate: false, probe: None });
+        record(sink, "sized", CaseIn { cfg, msgs, intents, isolate: false, probe: None, spre: vec![], sdirs: vec![], sreadonly: vec![], saves: vec![] });
     };
     let quick = tier == "quick";
     // lost announcement: n equal packages of bs bytes
@@ -1412,6 +1592,168 @@ fn sized_cases(sink: &mut Sink, rng: &mut Rng, tier: &str) {
         let f = if matches!(f, Fault::Resize(_, true)) { Fault::None } else { f };
         let contrast = rng.chance(1, 2);
         one(sink, rng, n, bs, last, f, contrast, k);
+    }
+}
+
+// ------------------------------------------------------------------ the file system the save paths run in
+fn junk(len: usize, salt: u8) -> Vec<u8> {
+    (0..len).map(|i| 0xA0u8.wrapping_add(salt).wrapping_add((i * 7) as u8)).collect()
+}
+/// n-th transfer of a save plan: a fault-free (or, with `broken`, incomplete) transfer of `size` bytes
+fn plan_of_size(rng: &mut Rng, serial: u64, size: u64, broken: bool) -> (Plan, Fault) {
+    let bs = if size > 64 { *rng.pick(&[64u64, 100, 256, 300, 512]) } else { rng.range(1, size.max(1)) };
+    let n = (size + bs - 1) / bs;
+    let last = size - (n - 1) * bs;
+    let file = pattern_file(rng, n, bs, last);
+    let p = Plan { ecu: c4(if serial % 2 == 0 { "ECU1" } else { "ECU2" }), ..simple_plan(serial, format!("dir/t{}.bin", serial).as_bytes(), file, bs) };
+    let f = if broken { Fault::Drop(n as usize) } else { Fault::None };
+    (p, f)
+}
+#[derive(Clone, Copy, Debug, PartialEq)]
+enum Prior {
+    Absent,
+    Empty,
+    Shorter,
+    SameLen,
+    Longer,
+    MuchLonger,
+    Dir,
+    MissingDir,
+    ReadOnly,
+}
+const PRIORS: &[Prior] = &[Prior::Absent, Prior::Empty, Prior::Shorter, Prior::SameLen, Prior::Longer, Prior::MuchLonger, Prior::Dir, Prior::MissingDir, Prior::ReadOnly];
+/// prepare target number `k` with the prior state relative to a content of `size` bytes; returns the saveAs name
+fn prepare(c: &mut CaseIn, k: usize, prior: Prior, size: u64) -> Vec<u8> {
+    let name = format!("t{}_{:?}.bin", k, prior).to_lowercase().into_bytes();
+    match prior {
+        Prior::Absent => {}
+        Prior::Empty => c.spre.push((name.clone(), vec![])),
+        Prior::Shorter => c.spre.push((name.clone(), junk((size / 2) as usize, k as u8))),
+        Prior::SameLen => c.spre.push((name.clone(), junk(size as usize, k as u8))),
+        Prior::Longer => c.spre.push((name.clone(), junk(size as usize + 1, k as u8))),
+        Prior::MuchLonger => c.spre.push((name.clone(), junk(size as usize * 2 + 37, k as u8))),
+        Prior::Dir => c.sdirs.push(name.clone()),
+        Prior::MissingDir => return format!("nodir{}/x.bin", k).into_bytes(),
+        Prior::ReadOnly => {
+            c.spre.push((name.clone(), junk(size as usize + 3, k as u8)));
+            c.sreadonly.push(name.clone());
+        }
+    }
+    name
+}
+fn save_cases(sink: &mut Sink, rng: &mut Rng, tier: &str) {
+    let sizes: &[u64] = &[1, 2, 7, 20, 47, 48, 49, 100, 700, 1500];
+    let mut serial = 9000u64;
+    // one transfer, one save, every prior state of the target x every size
+    for size in sizes {
+        for prior in PRIORS {
+            serial += 2;
+            let (p, f) = plan_of_size(rng, serial, *size, false);
+            let mut c = CaseIn { cfg: std_cfg(), msgs: transfer_msgs(&p, &f), intents: vec![intent(&p, &f)], isolate: false, probe: None, spre: vec![], sdirs: vec![], sreadonly: vec![], saves: vec![] };
+            let t = prepare(&mut c, 0, *prior, *size);
+            c.saves.push((0, t.clone()));
+            if serial % 4 == 0 {
+                c.saves.push((0, t)); // the same transfer saved twice
+            }
+            record(sink, "save_prior", c);
+        }
+    }
+    // two transfers of different (or equal) sizes saved in a row to the same name, both orders, fresh or pre-existing target
+    let pairs: &[(u64, u64)] = &[(1500, 700), (700, 1500), (49, 20), (20, 49), (8, 8), (100, 1), (3, 300), (48, 47)];
+    for (sa, sb) in pairs {
+        for (v, prior) in [Prior::Absent, Prior::MuchLonger, Prior::Shorter].iter().enumerate() {
+            serial += 2;
+            let (pa, fa) = plan_of_size(rng, serial, *sa, false);
+            let (pb, fb) = plan_of_size(rng, serial + 1, *sb, false);
+            let seqs = vec![transfer_msgs(&pa, &fa), transfer_msgs(&pb, &fb)];
+            let plans = vec![pa.clone(), pb.clone()];
+            let msgs = interleave(rng, seqs, &plans, 1, true);
+            let mut c = CaseIn { cfg: std_cfg(), msgs, intents: vec![intent(&pa, &fa), intent(&pb, &fb)], isolate: false, probe: None, spre: vec![], sdirs: vec![], sreadonly: vec![], saves: vec![] };
+            let t = prepare(&mut c, 0, *prior, (*sa).max(*sb));
+            // transfer numbers follow the order of the announcements in the log
+            let first_is_a = c.msgs.iter().find_map(|m| if let Body::Flst { serial: s, .. } = &m.body { Some(*s == pa.serial) } else { None }).unwrap_or(true);
+            let (ia, ib) = if first_is_a { (0u64, 1u64) } else { (1, 0) };
+            c.saves = match v {
+                0 => vec![(ia, t.clone()), (ib, t.clone())],
+                1 => vec![(ib, t.clone()), (ia, t.clone()), (ib, t.clone())],
+                _ => vec![(ia, t.clone()), (ia, t.clone()), (ib, t.clone()), (ia, t.clone())],
+            };
+            record(sink, "save_sequence", c);
+        }
+    }
+    // random plans: 1..3 transfers (one may be incomplete, allowSave may be off), several targets, several commands
+    let n_rand = match tier {
+        "quick" => 60,
+        "search" => 300,
+        _ => 800,
+    };
+    for _ in 0..n_rand {
+        let k = rng.range(1, 3);
+        let mut seqs = vec![];
+        let mut plans = vec![];
+        let mut intents = vec![];
+        let mut maxsize = 1;
+        for j in 0..k {
+            serial += 1;
+            let size = *rng.pick(&[1u64, 3, 8, 20, 48, 49, 64, 130, 700, 1100]);
+            maxsize = maxsize.max(size);
+            let broken = j > 0 && rng.chance(1, 5);
+            let (p, f) = plan_of_size(rng, serial, size, broken);
+            seqs.push(transfer_msgs(&p, &f));
+            intents.push(intent(&p, &f));
+            plans.push(p);
+        }
+        let mut cfg = std_cfg();
+        if rng.chance(1, 8) {
+            cfg.allow_save = false;
+        }
+        cfg.keep_flda = rng.chance(1, 3);
+        let noise = rng.below(2);
+        let msgs = interleave(rng, seqs, &plans, noise, true);
+        let mut c = CaseIn { cfg, msgs, intents, isolate: false, probe: None, spre: vec![], sdirs: vec![], sreadonly: vec![], saves: vec![] };
+        let nt = rng.range(1, 3) as usize;
+        let mut targets = vec![];
+        for t in 0..nt {
+            let prior = *rng.pick(PRIORS);
+            let rel = *rng.pick(&[1u64, 3, 20, 49, 130, 700, maxsize]);
+            targets.push(prepare(&mut c, t, prior, rel));
+        }
+        for _ in 0..rng.range(1, 6) {
+            let idx = if rng.chance(1, 10) { k + rng.below(2) } else { rng.below(k) };
+            c.saves.push((idx, rng.pick(&targets).clone()));
+        }
+        record(sink, "save_random", c);
+    }
+    // auto-save with a prior state of its target: absent / empty / shorter / same length / longer / a directory / missing directory
+    for size in [3u64, 60, 700] {
+        for prior in [Prior::Absent, Prior::Empty, Prior::Shorter, Prior::SameLen, Prior::Longer, Prior::MuchLonger, Prior::Dir, Prior::MissingDir] {
+            for allow in [true, false] {
+                serial += 2;
+                let (p, f) = plan_of_size(rng, serial, size, false);
+                let (q, fq) = plan_of_size(rng, serial + 1, size + 5, false);
+                let q = Plan { name: p.name.clone(), ..q }; // a second transfer with the same base name: must not overwrite the first one's file either
+                let base = format!("t{}.bin", serial).into_bytes();
+                let mut cfg = autosave_cfg(allow, "*", if serial % 3 == 0 { "/" } else { "" });
+                match prior {
+                    Prior::Absent => {}
+                    Prior::Empty => cfg.pre.push((base.clone(), vec![])),
+                    Prior::Shorter => cfg.pre.push((base.clone(), junk((size / 2) as usize, 1))),
+                    Prior::SameLen => cfg.pre.push((base.clone(), junk(size as usize, 2))),
+                    Prior::Longer => cfg.pre.push((base.clone(), junk(size as usize + 1, 3))),
+                    Prior::MuchLonger => cfg.pre.push((base.clone(), junk(size as usize * 2 + 9, 4))),
+                    Prior::Dir => cfg.pre_dirs.push(base.clone()),
+                    _ => cfg.dir_missing = true,
+                }
+                let mut msgs = transfer_msgs(&p, &f);
+                msgs.extend(transfer_msgs(&q, &fq));
+                let mut c = CaseIn { cfg, msgs, intents: vec![intent(&p, &f), intent(&q, &fq)], isolate: false, probe: None, spre: vec![], sdirs: vec![], sreadonly: vec![], saves: vec![] };
+                if allow {
+                    // and a manual save of both on top of each other
+                    c.saves = vec![(1, b"manual.bin".to_vec()), (0, b"manual.bin".to_vec())];
+                }
+                record(sink, "autosave_prior", c);
+            }
+        }
     }
 }
 
@@ -1509,9 +1851,10 @@ fn main() {
     }
     sweep(&mut sink, &mut rng, sweep_n);
     sized_cases(&mut sink, &mut rng, &a.tier);
+    save_cases(&mut sink, &mut rng, &a.tier);
     if a.tier != "search" && std::env::var("C17_NO_PREALLOC_PROBE").is_err() {
         // 1040 packages of 65000 bytes = 64.5 MiB, just above the 64 MiB pre-allocation cap
-        record(&mut sink, "prealloc_probe", CaseIn { cfg: std_cfg(), msgs: vec![], intents: vec![], isolate: false, probe: Some((1040, 65000)) });
+        record(&mut sink, "prealloc_probe", CaseIn { cfg: std_cfg(), msgs: vec![], intents: vec![], isolate: false, probe: Some((1040, 65000)), spre: vec![], sdirs: vec![], sreadonly: vec![], saves: vec![] });
     }
     for _ in 0..n_scen {
         let c = gen_scenario(&mut rng, a.tier != "quick");
